@@ -115,7 +115,7 @@ def expand(ix, fi, e: ast.AST, defs=None, depth: int = 4) -> ast.AST:
         class T(ast.NodeTransformer):
             def visit_Name(self, n):
                 if isinstance(n.ctx, ast.Load) and n.id in consts and n.id not in params and n.id not in defs.defs and d > 0 \
-                        and isinstance(consts[n.id], (ast.Constant, ast.Tuple, ast.List, ast.Set, ast.Dict)):
+                        and (isinstance(consts[n.id], ast.Constant) or (isinstance(consts[n.id], ast.Tuple) and all(isinstance(e, ast.Constant) for e in consts[n.id].elts))):
                     return clone(consts[n.id])
                 return n
 
@@ -275,3 +275,80 @@ def resolve(e: ast.AST, fn: ast.AST, depth: int = 6) -> ast.AST:
 
 def rnorm(e: ast.AST, fn: ast.AST) -> str:
     return norm(resolve(e, fn))
+
+
+# ---------------------------------------------------------------- lexical condition context
+def _terminates(stmts) -> bool:
+    if not stmts:
+        return False
+    last = stmts[-1]
+    if isinstance(last, (ast.Return, ast.Raise, ast.Continue, ast.Break)):
+        return True
+    if isinstance(last, ast.If):
+        return _terminates(last.body) and _terminates(last.orelse)
+    return False
+
+
+def facts_at(node: ast.AST, fn: ast.AST) -> list:
+    """[(positive_atom, truth)] known to hold whenever `node` is evaluated, from the enclosing if/elif/else, conditional
+    expressions, `and`/`or` short-circuits and from earlier sibling `if c: <return/raise/continue>` guards."""
+    out = []
+    cur = node
+    while cur is not None and cur is not fn:
+        par = getattr(cur, "_parent", None)
+        if par is None:
+            break
+        if isinstance(par, (ast.If, ast.While)):
+            if any(x is cur for x in par.body):
+                out += list(conjuncts(par.test, "t"))
+            elif any(x is cur for x in par.orelse) and isinstance(par, ast.If):
+                out += list(conjuncts(par.test, "f"))
+        elif isinstance(par, ast.IfExp):
+            if cur is par.body:
+                out += list(conjuncts(par.test, "t"))
+            elif cur is par.orelse:
+                out += list(conjuncts(par.test, "f"))
+        elif isinstance(par, ast.BoolOp):
+            idx = [i for i, v in enumerate(par.values) if v is cur]
+            if idx:
+                for v in par.values[:idx[0]]:
+                    out += list(conjuncts(v, "t" if isinstance(par.op, ast.And) else "f"))
+        elif isinstance(par, ast.comprehension) and any(i is cur for i in par.ifs):
+            pass
+        # element of a comprehension guarded by its ifs
+        if isinstance(par, (ast.ListComp, ast.SetComp, ast.GeneratorExp, ast.DictComp)) and (cur is getattr(par, "elt", None) or cur is getattr(par, "key", None) or cur is getattr(par, "value", None)):
+            for g in par.generators:
+                for i in g.ifs:
+                    out += list(conjuncts(i, "t"))
+        # earlier sibling guards that terminate
+        for fld in ("body", "orelse", "finalbody"):
+            lst = getattr(par, fld, None)
+            if isinstance(lst, list) and any(x is cur for x in lst):
+                idx = [i for i, x in enumerate(lst) if x is cur][0]
+                for st in lst[:idx]:
+                    if isinstance(st, ast.If) and _terminates(st.body) and not st.orelse:
+                        out += list(conjuncts(st.test, "f"))
+                    elif isinstance(st, ast.If) and st.orelse and _terminates(st.orelse) and not _terminates(st.body):
+                        out += list(conjuncts(st.test, "t"))
+                    elif isinstance(st, ast.Assert):
+                        out += list(conjuncts(st.test, "t"))
+        cur = par
+    return out
+
+
+def holds_at(node, fn, atom_pred, truth=True) -> bool:
+    return any(t == truth and atom_pred(a) for a, t in facts_at(node, fn))
+
+
+def iterates_over(node: ast.AST, fn: ast.AST, name: str) -> bool:
+    """node lies in a for loop / comprehension whose iterable mentions `name`."""
+    cur = node
+    while cur is not None and cur is not fn:
+        par = getattr(cur, "_parent", None)
+        if isinstance(par, (ast.For, ast.AsyncFor)) and any(isinstance(x, ast.Name) and x.id == name for x in ast.walk(par.iter)):
+            return True
+        if isinstance(par, (ast.ListComp, ast.SetComp, ast.GeneratorExp, ast.DictComp)):
+            if any(isinstance(x, ast.Name) and x.id == name for g in par.generators for x in ast.walk(g.iter)):
+                return True
+        cur = par
+    return False
